@@ -82,11 +82,13 @@ def generate(rng, index, tier):
         # thread sits inside an ordinary and a trace-domain window that close at the very end
         n = worlds.dict_size(rng, 70000) or 5000
         s_, e_ = worlds.domains.draw(rng, 'BSC_read')
-        victim = {'tid': 50, 'ops': [{'k': 'sys', 'name': 'BSC_getpid', 's': [0, 0, 0, 0], 'e': [0, 1, 0, 0], 'in': []},
-                                      {'k': 'sys', 'name': 'BSC_read', 's': s_, 'e': e_, 'in': [{'k': 'tname', 'text': 'v' * 40, 'prev': False}]}]}
+        victim = {'tid': 50, 'ops': [{'k': 'sys', 'name': 'BSC_getpid', 's': [0, 0, 0, 0], 'e': [0, 1, 0, 0], 'in': []}] +
+                  ([{'k': 'tname', 'text': 'v' * 40, 'prev': False}] if (index // 2999) % 2 == 0 else
+                   [{'k': 'sys', 'name': 'BSC_read', 's': s_, 'e': e_, 'in': [{'k': 'tname', 'text': 'v' * 40, 'prev': False}]}])}
         crowd = [{'tid': 1000 + i, 'ops': [{'k': 'raw', 'id': 0x40c0010, 'q': 1, 'a': [i, 0, 0, 0]}]} for i in range(n)]
         # victim: getpid S,E then read START, name chunk 1 | the crowd | name chunk 2, read END
-        return {'threads': [victim] + crowd, 'schedule': [0, 0, 0, 0] + [1] * n + [0, 0], 'faults': [], 'long': n}
+        lead = 3 if (index // 2999) % 2 == 0 else 4      # the victim's records up to and including the first chunk of its thread name
+        return {'threads': [victim] + crowd, 'schedule': [0] * lead + [1] * n + [0, 0], 'faults': [], 'long': n}
     if index % 997 == 1:
         # a long-running operation: thousands of same-thread records inside one window, then the thread goes on
         n = worlds.LONG_SIZES[(index // 997) % len(worlds.LONG_SIZES)]
